@@ -15,7 +15,8 @@ names in brackets; the engine parks the real thread at exactly these):
                happened); cluster builds register the pid; spawn_instant hands the reference out
                [h.unstarted], the other flavours go on to `start`
   (unstarted)  the start task is polled — or dropped before its first poll (`cut`)
-  [status.publish] set_status(Starting); pre_start runs its side effects up to its gate [h.pre]
+  [status.publish] set_status(Starting); pre_start runs its side effects (pg joins and monitors,
+               casts to itself, optionally `myself.get_cell().link(sup)` [tree.link]) up to its gate [h.pre]
   [h.pre]      pre_start returns Ok / Err / panics / is dropped (cut) / loses against a pending kill
                (`handle_signal` → `terminate` → `take_children` [tree.take])
   [tree.link]  linked flavours, pre_start Ok: `link_starting` — refused iff the child is >= Stopping
@@ -47,11 +48,12 @@ structure Cfg where
   joins : List Nat := []           -- groups pre_start joins
   mons : List Nat := []            -- groups pre_start monitors
   selfsends : Nat := 0
+  selflink : Bool := false         -- pre_start links itself to the supervisor cell: `myself.get_cell().link(sup)`
   outcome : Outcome := .err
   deriving Repr, DecidableEq
 
 inductive Pc
-  | init | unstarted | pubStarting | pre | kTake | link | started
+  | init | unstarted | pubStarting | selfLink | pre | kTake | link | started
   | cStopping | cUnregPid | cUnregName | cPgDemon | cPgLeave | cTerminate | cTake | cNotify | cUnlink
   | cTreeUnlink | cStopped | cPubStopped | cStatusNotify | cNotifyWaiters
   | done
@@ -93,6 +95,7 @@ structure W where
   mailbox : List Item := []
   ports : List PortSt := []
   admClosed : Bool := false         -- admission closed by a drain
+  markerSent : Bool := false        -- the drain marker bit (the first drain of a stopped cell reports Err)
   stopReq : Bool := false
   killReq : Bool := false
   handled : Nat := 0
@@ -132,7 +135,11 @@ def spawnStep (c : Cfg) (w : W) : W :=
     -- the (biased) select polls the signal port first: a kill that is already pending wins before
     -- pre_start is polled at all
     if w.killReq then { w with status := max w.status 1, pc := .kTake, res := .err }
-    else sideEffects c { w with status := max w.status 1, pc := .pre }
+    else sideEffects c { w with status := max w.status 1, pc := if c.selflink then .selfLink else .pre }
+  | .selfLink =>
+    -- the public `link()`: refused iff either side is >= Draining
+    if 4 ≤ w.status || 4 ≤ w.supStatus then { w with pc := .pre }
+    else { w with supSlot := true, supKids := true, pc := .pre }
   | .pre =>
     match c.outcome with
     | .ok => if c.linked then { w with pc := .link } else { w with pc := .started, res := .ok }
@@ -193,9 +200,18 @@ def step (c : Cfg) (w : W) : Op → W
   | .kill => if w.exists_ && w.portsOpen then { w with killReq := true } else w
   | .drain =>
     if !w.exists_ then w
-    else { w with admClosed := true,
+    else { w with admClosed := true, markerSent := true,
                   status := if w.status ≠ 0 ∧ w.status < 5 then 4 else w.status }
-  | .supSet st => { w with supStatus := max w.supStatus st }
+  | .supSet st =>
+    -- a supervisor that reaches Stopped has run `terminate`: its child set is taken (closed), every
+    -- child is detached and — unless it is already Stopping — killed
+    if 6 ≤ st && w.supKids then
+      { w with supStatus := max w.supStatus st, supKids := false, supSlot := false,
+               killReq := w.killReq || (w.portsOpen && w.status < 5) }
+    else { w with supStatus := max w.supStatus st }
+
+/-- what `drain()` returns: the marker cannot be enqueued once the ports are gone -/
+def drainResult (w : W) : Bool := w.markerSent || w.portsOpen
 
 def run (c : Cfg) (ops : List Op) : W := ops.foldl (step c) {}
 
